@@ -133,7 +133,7 @@ PropSpec {
     quick_runs: 10_000,
     thorough_runs: 250_000,
     default_seed: 606,
-    rule: "hosts of 1-3 peers (rollback and lockstep) with 1-2 spectators; spectator tick rate 0.25x-4x the host's, pauses 0.1-3 s, max_frames_behind 1..=59, catchup_speed 1..=70, loss up to 20 % / duplication / 150 % jitter on the host->spectator link, loss on the ack direction; in 40 % of the two-peer runs the other player dies. Every AdvanceFrame of a spectator is checked against the host's confirmed timeline (value, Disconnected status, never beyond the host's confirmed_frame()), the catch-up rule, and the justification of PredictionThreshold / SpectatorTooFarBehind; twin run without the spectators: the players' sealed timelines must be identical. Non-trivial = >= 50 spectator frames and >= 1 fault fired or catch-up call; distinct = distinct executed-schedule hash",
+    rule: "hosts of 1-3 peers (rollback and lockstep) with 1-2 spectators; spectator tick rate 0.25x-4x the host's, pauses 0.1-3 s, max_frames_behind 1..=59, catchup_speed 1..=70, loss up to 20 % / duplication / 150 % jitter on the host->spectator link, loss on the ack direction; in 40 % of the two-peer runs the other player dies; in a third of the three-peer runs both other players go within one poll of the host (both die at the same instant, one with its last packets lost, or the host drops both through the API in one tick: two cut-offs pending before the next rollback). Every AdvanceFrame of a spectator is checked against the host's confirmed timeline (value, Disconnected status, never beyond the host's confirmed_frame()), the catch-up rule, and the justification of PredictionThreshold / SpectatorTooFarBehind; twin run without the spectators: the players' sealed timelines must be identical. Non-trivial = >= 50 spectator frames and >= 1 fault fired or catch-up call; distinct = distinct executed-schedule hash",
     nontrivial: nt_c06,
     required_probes: &["spectator_frames", "spectator_catchup_calls", "spectator_waits", "spectator_too_far_behind", "twin_runs", "drop_random", "disconnected"],
     assumptions: BASE_ASSUME,
